@@ -523,3 +523,110 @@ func (fi *FuncInfo) RetVal(ret *ssa.Return, i int) ssa.Value {
 func (fi *FuncInfo) RetSym(ret *ssa.Return, i int) *Sym {
 	return fi.Sym(fi.RetVal(ret, i))
 }
+
+// ArmStore is a field store that happens on a guarded part (arm) of a
+// function, directly or inside a helper called from that arm (depth <= 2),
+// with the helper's parameters replaced by the call's arguments.
+type ArmStore struct {
+	Field *types.Var
+	Val   *Sym
+	Base  *Sym
+	At    ssa.Instruction // the store, or the call through which it happens
+}
+
+// ArmStores collects the stores performed on instructions of fn selected by
+// inArm (REACH-EFFECT of DESIGN §2.6, robust to extracting a helper).
+func (p *Prog) ArmStores(fn *ssa.Function, inArm func(ssa.Instruction) bool) []ArmStore {
+	var out []ArmStore
+	fi := p.Info(fn)
+	var fromCallee func(callee *ssa.Function, m map[ssa.Value]*Sym, at ssa.Instruction, depth int)
+	fromCallee = func(callee *ssa.Function, m map[ssa.Value]*Sym, at ssa.Instruction, depth int) {
+		if callee.Blocks == nil || depth > 2 {
+			return
+		}
+		pk := fnPkg(callee)
+		if pk == nil || !isOurPath(pk.Path()) {
+			return
+		}
+		cfi := p.Info(callee)
+		for _, in := range p.liveInstrsOf(callee) {
+			switch x := in.(type) {
+			case *ssa.Store:
+				fa, ok := x.Addr.(*ssa.FieldAddr)
+				if !ok {
+					continue
+				}
+				if _, fresh := rootOfAddr(fa).(*ssa.Alloc); fresh {
+					continue
+				}
+				if !mustPass(cfi, x) {
+					continue // only unconditional effects of the helper count
+				}
+				out = append(out, ArmStore{Field: derefStruct(fa.X.Type()).Field(fa.Field), Val: resimplify(Subst(cfi.Sym(x.Val), m)), Base: resimplify(Subst(derefLoc(cfi.Sym(fa.X)), m)), At: at})
+			case *ssa.Call:
+				c2 := x.Common().StaticCallee()
+				if c2 == nil || !mustPass(cfi, x) {
+					continue
+				}
+				args := callArgs(x)
+				if len(args) != len(c2.Params) {
+					continue
+				}
+				m2 := map[ssa.Value]*Sym{}
+				for i, prm := range c2.Params {
+					m2[prm] = resimplify(Subst(cfi.Sym(args[i]), m))
+				}
+				fromCallee(c2, m2, at, depth+1)
+			}
+		}
+	}
+	for _, in := range p.liveInstrsOf(fn) {
+		if !inArm(in) {
+			continue
+		}
+		switch x := in.(type) {
+		case *ssa.Store:
+			fa, ok := x.Addr.(*ssa.FieldAddr)
+			if !ok {
+				continue
+			}
+			if _, fresh := rootOfAddr(fa).(*ssa.Alloc); fresh {
+				continue
+			}
+			out = append(out, ArmStore{Field: derefStruct(fa.X.Type()).Field(fa.Field), Val: fi.Sym(x.Val), Base: derefLoc(fi.Sym(fa.X)), At: in})
+		case *ssa.Call:
+			callee := x.Common().StaticCallee()
+			if callee == nil {
+				continue
+			}
+			args := callArgs(x)
+			if len(args) != len(callee.Params) {
+				continue
+			}
+			m := map[ssa.Value]*Sym{}
+			for i, prm := range callee.Params {
+				m[prm] = fi.Sym(args[i])
+			}
+			fromCallee(callee, m, in, 1)
+		}
+	}
+	return out
+}
+
+// ReturnFormula: the boolean function computed by fn as one formula: OR over
+// its returns of (path outcomes AND returned value). nil if too complex.
+func (p *Prog) ReturnFormula(fn *ssa.Function) *BF {
+	fi := p.Info(fn)
+	var disj []*BF
+	for _, ret := range returnsOf(fi) {
+		paths, ok := fi.Paths(ret, -1)
+		if !ok || len(paths) > 256 {
+			return nil
+		}
+		val := fi.valueBF(fi.RetVal(ret, 0), 0)
+		for _, pth := range paths {
+			disj = append(disj, bfAnd(append(append([]*BF{}, pth...), val)...))
+		}
+	}
+	return bfOr(disj...)
+}
